@@ -309,7 +309,8 @@ const R_ACCESS = ['.p', '[k]', '[f()]', '[i++]', '.q', "['p']", '[(f(), k)]']
 function familyR (tier, opts = {}) {
   const leaves = []
   const stats = { states: 1, transitions: 0 }
-  const rhs = tier === 'thorough' ? ['b', 'f()', "'lit'", 'a + b', '`${a}`'] : ['b', 'f()', 'a + b']
+  // right-hand sides include every form that binds looser than `+` (they become an operand of the synthesised `T + R`)
+  const rhs = tier === 'thorough' ? ['b', 'f()', "'lit'", 'a + b', '`${a}`', 'q => q', 'async q => q', 'c ? a : b', 'y = b', 'y ||= b', 'function () {}', 'class {}', 'a ?? b', 'a || b'] : ['b', 'f()', 'a + b', 'q => q', 'c ? a : b', 'y = b']
   const targets = []
   for (const [bn, b] of Object.entries(R_BASES)) {
     if (bn === 'x') targets.push([bn, b])
